@@ -552,12 +552,13 @@ class AbstractExcelInPython(ABC):
     def _iferror(self, condition_function, when_error):
         try:
             cell = condition_function()
-            if self._find_error_in_list([cell]):
-                return when_error
-            else:
+            if not self._find_error_in_list([cell]):
                 return cell
         except:
-            return when_error
+            pass
+
+        # the fallback is calculated only when it is needed
+        return when_error() if callable(when_error) else when_error
 
     def _left(self, text, num_chars):
         if num_chars is None:
@@ -726,14 +727,14 @@ class AbstractExcelInPython(ABC):
         return text[len(text) - num_chars:]
 
     def _ifs(self, flatten_list: List):
-        err_value = self._find_error_in_list(flatten_list)
-        if err_value:
-            return err_value
-
+        # the conditions and the values come as functions: a value is calculated only when its condition is the first true one
         index = 0
-        while index < len(flatten_list):
-            if flatten_list[index]:
-                return flatten_list[index + 1]
+        while index + 1 < len(flatten_list):
+            condition = flatten_list[index]() if callable(flatten_list[index]) else flatten_list[index]
+            if self._find_error_in_list([condition]):
+                return condition
+            if condition:
+                return flatten_list[index + 1]() if callable(flatten_list[index + 1]) else flatten_list[index + 1]
             index += 2
 
         return '#N/A'
